@@ -127,6 +127,12 @@ class Ctx:
         for k in exempt:
             if k in kwargs:
                 env_post[k] = kwargs[k]
+        for cl in c.of('let'):          # lets that do not mention the result are available to the raises clauses
+            for k2, a in cl.kw.items():
+                try:
+                    env_post[k2] = self.ev(a, env_post)
+                except NameError:
+                    pass
         if exc is not None:
             name = type(exc).__name__
             if name not in raises:
